@@ -9,6 +9,8 @@ from ...config import NOT_AN_ID
 # characters of a string attribute value written as they are; the others (blanks, line breaks, #, ", [, ], %, ...) are percent-encoded
 # so that the value stays on its line and cannot be taken for a comment or a chunk header
 STRING_SAFE_CHARACTERS = "!$&'()*+,-./:;<=>?@^_`{|}~"
+# same for the name of a user attribute, where blanks are harmless (the name is written between double quotes)
+NAME_SAFE_CHARACTERS = STRING_SAFE_CHARACTERS + " "
 
 class Chunk:
 
@@ -225,13 +227,14 @@ def import_geogram_ascii(path):
             if container is None:
                 err_msg = f"In import_geogram_ascii : Container {chk.container} is not recognized"
                 raise Exception(err_msg)
-            attr = container.create_attribute(chk.name.split("\"")[1], chk.data_type, chk.n_data) # remove first and last "
+            attr = container.create_attribute(unquote(chk.name.split("\"")[1]), chk.data_type, chk.n_data) # remove first and last "
             if chk.container == Chunk.Container.CELL_FACETS:
                 attr._expand(container_sizes[Chunk.Container.CELL_FACETS])
             import_attribute(chk, attr)
     return outmesh
 
 def export_attribute(f, size, container, attr, attr_name):
+    attr_name = quote(str(attr_name), safe=NAME_SAFE_CHARACTERS)
     f.write(f"[ATTR]\n\"{container}\"\n\"{attr_name}\"\n\"{attr.type.to_string()}\"\n{attr.type.byte_size()}\n{attr.elemsize}\n")
     for i in range(size):
         if attr.elemsize==1:
